@@ -21,16 +21,29 @@ T6 = 5.0
 
 def run_trace(job):
     """job: (id, mode, inputs, seed, policy, merge_inflight). Returns trace record."""
-    tid, mode, inputs, seed, policy, merge = job
+    tid, mode, inputs, seed, policy, merge = job[:6]
+    residue = job[6] if len(job) > 6 else False
     hsmsrun.quiet_logging()
     simrt.install()
-    rec = {"id": tid, "mode": mode, "steps": [], "seed": seed, "policy": policy, "merge": merge}
+    rec = {"id": tid, "mode": mode, "steps": [], "seed": seed, "policy": policy, "merge": merge, "residue": residue}
 
     def main(s):
+        from .. import link as lk
         ep = hsmsrun.Ep(mode=mode, kind="protocol")
+        rng_r = random.Random(seed ^ 0x4E5)
         i = 0
         while i < len(inputs):
             inp = inputs[i]
+            if residue and inp["k"] in ("PeerClose", "Disable") and ep.cs != "NC":
+                # the connection ends while only the first bytes of a message have arrived: they are not a message and
+                # belong to this connection only
+                whole = lk.hsms_frame(stype=0, system=ep.fresh_sys(), session=0, stream=1, function=13, wbit=True,
+                                      body=b"\x01\x02\x41\x04mdln\x41\x03rev")
+                cut = rng_r.choice([1, 3, 4, 6, 13, 14, len(whole) - 1])
+                ep.link.feed(whole[:cut])
+                s.settle()
+                ep.link.take_frames()
+                rec.setdefault("residues", []).append(cut)
             if merge and inp["k"] == "Connect" and i + 1 < len(inputs) and inputs[i + 1]["k"] in ("Ctrl", "Data") \
                     and inputs[i + 1].get("sys") != "open":
                 # message already in flight when the connection is accepted: both inputs happen "at once";
@@ -138,10 +151,10 @@ def run(ctx: Ctx):
     jobs = []
     tid = 0
 
-    def add(path, seed, policy, merge):
+    def add(path, seed, policy, merge, residue=False):
         nonlocal tid
         tid += 1
-        jobs.append((tid, path[0]["from"]["mode"], [e["inp"] for e in path], seed, policy, merge))
+        jobs.append((tid, path[0]["from"]["mode"], [e["inp"] for e in path], seed, policy, merge, residue))
 
     for p in paths:
         add(p, 0, "fifo", False)
@@ -157,6 +170,11 @@ def run(ctx: Ctx):
             add(p, rng.randrange(1 << 30), "random", True)
     for p in walks[: (20 if ctx.quick else 200)]:
         add(p, rng.randrange(1 << 30), "random", True)
+
+    # a connection that ends in the middle of an inbound message, then the history goes on (reconnect, select, data)
+    closers = [p for p in paths + walks if any(e["inp"]["k"] in ("PeerClose", "Disable") for e in p[:-1])]
+    for p in closers[: (150 if ctx.quick else 1500)]:
+        add(p, rng.randrange(1 << 30), "fifo" if tid % 2 else "random", False, True)
 
     traces = pmap(run_trace, jobs)
     bad_runs = [t for t in traces if t["outcome"] != "done"]
@@ -182,16 +200,18 @@ def run(ctx: Ctx):
         rec = dict(sig)
         rec.update({"at": v["at"], "expected": v["exp"], "expected_cs": v["cs"], "observed": st["obs"],
                     "inputs": [s["inp"] for s in t["steps"][: v["at"]]], "sched_seed": t["seed"], "policy": t["policy"],
-                    "merge": t["merge"], "mode": t["mode"],
+                    "merge": t["merge"], "mode": t["mode"], "residue_cuts": t.get("residues"),
                     "what": f"E37 monitor clause '{v['clause']}' fails at step {v['at']} ({json.dumps(st['inp'])}) "
                             f"in state {sig['state_before']} ({t['mode']})"})
         ctx.violation(rec)
     ctx.rule = ("histories = one shortest path per edge of the E37 monitor's transition relation + random walks of 30 inputs "
-                "+ every (Connect, message) pair with the message already in flight under random schedules; each step's "
+                "+ every (Connect, message) pair with the message already in flight under random schedules + histories in which a "
+                "connection ends after only the first bytes of a message arrived; each step's "
                 "frames/events/deliveries/state recorded from the real HsmsProtocol and judged by TLC; distinct = distinct "
                 "input sequences")
     ctx.extra["monitor_edges"] = len(edges)
     ctx.extra["inflight_runs"] = len([j for j in jobs if j[5]])
+    ctx.extra["partial_message_at_close_runs"] = len([t for t in traces if t.get("residues")])
     ctx.assumptions += ["FakeConnection mirrors TcpConnection's thread structure (accept thread, receiver thread)",
                         "T7/T8 are not modelled (absent from code and from the property's alphabet)",
                         "linktest timer silenced in these histories (checked by the linktest scenario)"]
